@@ -134,6 +134,8 @@ impl Read for EnvReader {
             let req = buf.len();
             if st.call > 100_000 {
                 // a reader that is asked again and again without progress: the caller is spinning
+                // (the guard is released first so that the state mutex is not poisoned)
+                drop(st);
                 panic!("runaway I/O loop: more than 100000 read/seek calls in one operation");
             }
             if st.eof_forever {
